@@ -290,6 +290,8 @@ type World struct {
 	written  map[uint16]bool
 	onAccess func(w *World, e Ev) // optional callback (devices that raise interrupts)
 	reqs     []reqRec             // every request object handed to the CPU in this run, with the bytes it was built from
+	bp0      []uint16             // the breakpoint set as it was handed over (the host's map: read-only for the CPU)
+	bpNil    bool
 }
 
 // reqRec: a request object belongs to the host: the CPU may read it and drop its pointer, never change it
@@ -418,6 +420,10 @@ func buildCPU(v *Vec, w *World) *z80.CPU {
 			cpu.BreakPoints[uint16(x)] = struct{}{}
 		}
 	}
+	w.bp0, w.bpNil = nil, cpu.BreakPoints == nil
+	for a := range cpu.BreakPoints {
+		w.bp0 = append(w.bp0, a)
+	}
 	return cpu
 }
 
@@ -469,6 +475,16 @@ func resultStr(id string, cpu *z80.CPU, w *World) string {
 		}
 	} else {
 		sb.WriteString("...")
+	}
+	// the host's breakpoint set must be exactly as it was handed over
+	if (cpu.BreakPoints == nil) != w.bpNil || len(cpu.BreakPoints) != len(w.bp0) {
+		fmt.Fprintf(&sb, " BREAKPOINTS-CHANGED nil:%v->%v len:%d->%d", w.bpNil, cpu.BreakPoints == nil, len(w.bp0), len(cpu.BreakPoints))
+	} else {
+		for _, a := range w.bp0 {
+			if _, ok := cpu.BreakPoints[a]; !ok {
+				fmt.Fprintf(&sb, " BREAKPOINTS-CHANGED %04x removed", a)
+			}
+		}
 	}
 	// the host's request objects must be exactly as they were handed over (hidden state outside States and memory otherwise)
 	for i, q := range w.reqs {
